@@ -68,3 +68,11 @@ pub fn merge_partitioned<'a, T, C>(partitioning: &[Premerge], left: &[T], right:
     (result, take_left)
 }
 
+#[cfg(feature = "verif")]
+pub fn verif_merge_partitioned_i64(partitioning: &[Premerge], left: &[i64], right: &[i64], limit: usize, desc: bool) -> (Vec<i64>, Vec<u8>) {
+    if desc {
+        merge_partitioned::<i64, CmpGreaterThan>(partitioning, left, right, limit)
+    } else {
+        merge_partitioned::<i64, CmpLessThan>(partitioning, left, right, limit)
+    }
+}
